@@ -209,7 +209,8 @@ c = REG.contract('base_server.BaseServer._bad_request', props=['C12', 'C15'])
 c.param('self', Ref('BaseServer')).param('message', [NONE, STR])
 c.returns(RESP)
 c.ensures('status-400', "result['status'] == '400 BAD REQUEST'")
-c.ensures('header-list-is-a-fresh-object', "unshared(result['headers'])", props=['C19', 'C12'])
+c.ensures('header-list-is-a-fresh-object', "unshared(result) and unshared(result['headers'])",
+          props=['C19', 'C12'])
 c.ensures('headers', CT_PLAIN)
 c.ensures('body', "result['response'] == "
           "json_text('Bad Request' if message is None else message).encode('utf-8')")
@@ -218,7 +219,8 @@ c = REG.contract('base_server.BaseServer._method_not_found', props=['C12', 'C15'
 c.param('self', Ref('BaseServer'))
 c.returns(RESP)
 c.ensures('status-405', "result['status'] == '405 METHOD NOT FOUND'")
-c.ensures('header-list-is-a-fresh-object', "unshared(result['headers'])", props=['C19', 'C12'])
+c.ensures('header-list-is-a-fresh-object', "unshared(result) and unshared(result['headers'])",
+          props=['C19', 'C12'])
 c.ensures('headers', CT_PLAIN)
 c.ensures('body', "result['response'] == b'Method Not Found'")
 
@@ -226,7 +228,8 @@ c = REG.contract('base_server.BaseServer._unauthorized', props=['C11', 'C15'])
 c.param('self', Ref('BaseServer')).param('message', ANY)
 c.returns(RESP)
 c.ensures('status-401', "result['status'] == '401 UNAUTHORIZED'")
-c.ensures('header-list-is-a-fresh-object', "unshared(result['headers'])", props=['C19', 'C12'])
+c.ensures('header-list-is-a-fresh-object', "unshared(result) and unshared(result['headers'])",
+          props=['C19', 'C12'])
 c.ensures('headers', "result['headers'] == [('Content-Type', 'application/json')]")
 c.ensures('body-carries-value', "result['response'] == "
           "json_text('Unauthorized' if message is None else message).encode('utf-8')")
@@ -238,7 +241,8 @@ c.returns(RESP)
 c.requires('implies(packets is not None, forall(lambda k: packets[k] is not None and '
            'packet_ok(packets[k]), 0, len(packets)))', 'packets-encodable')
 c.ensures('status-200', "result['status'] == '200 OK'")
-c.ensures('header-list-is-a-fresh-object', "unshared(result['headers'])", props=['C19', 'C12'])
+c.ensures('header-list-is-a-fresh-object', "unshared(result) and unshared(result['headers'])",
+          props=['C19', 'C12'])
 c.ensures('no-packets-plain-ok', "implies(packets is None, result['response'] == b'OK' and " +
           CT_PLAIN + ")")
 c.ensures('headers-kept-and-typed', "implies(packets is not None, result['headers'] == "
